@@ -313,6 +313,10 @@ where
             self.metrics.memory_entries.decrease(count);
             self.metrics.memory_remove.increase(count);
         }
+        let usage = std::mem::take(&mut self.usage);
+        if usage > 0 {
+            self.metrics.memory_usage.decrease(usage as _);
+        }
     }
 
     #[cfg_attr(
